@@ -61,7 +61,24 @@ def theorems_list():
     return "\n".join(out)
 
 
-TABLES = {"status": status_table, "fixes": fixes_table, "seeded": seeded_table, "theorems": theorems_list}
+def ties_table():
+    import tr
+    owners = {}
+    for pid, mods in list(core.TIES.items()) + list(tr.ties().items()):
+        for m in mods:
+            owners.setdefault(m, set()).add(pid)
+    rows = ["| tie module | reported by | theorems | generated from |", "|---|---|---|---|"]
+    plug = {mod: p for p in tr.plugins() for mod in getattr(p, "TIE", {})}
+    for m in sorted(owners):
+        path = os.path.join(VERIF, "lean", *m.split(".")) + ".lean"
+        txt = core.strip_comments(open(path).read()) if os.path.exists(path) else ""
+        n = len(re.findall(r"^theorem\s+", txt, re.M))
+        gen = ("`harness/tr/%s.py` → `Gen/%s`" % (plug[m].__name__.split(".")[-1], plug[m].GEN_FILE)) if m in plug else "`harness/py2lean.py`"
+        rows.append(f"| `{m}` | {', '.join(sorted(owners[m]))} | {n} | {gen} |")
+    return "\n".join(rows)
+
+
+TABLES = {"ties": ties_table, "status": status_table, "fixes": fixes_table, "seeded": seeded_table, "theorems": theorems_list}
 
 def main():
     path = os.path.join(VERIF, "DESIGN.md")
